@@ -269,7 +269,55 @@ def r6_cap_provenance(ctx):
         R.check(ok, "C06.R6", "new:semaphore-size", "the semaphore has exactly max_subscriptions permits", "the semaphore is sized by %s" % [flow.leaf_str(l) for l in lv], where(s))
 
 
-RULES = [r1_permit_before_handler, r2_permit_flow, r3_unsubscribe_answer, r4_release_on_last_drop, r5_unsubscribe_needs_no_permit, r6_cap_provenance]
+
+TABLE_WRITERS = {
+    # site (function) -> the only table operations it may perform, with the reason
+    r"^jsonrpsee_core::server::subscription::PendingSubscriptionSink::accept::\{closure#0\}$": ({"insert"}, "accept registers the subscription"),
+    r"^jsonrpsee_core::server::rpc_module::RpcModule::<Context>::verify_and_register_unsubscribe::\{closure#0\}$": ({"remove"}, "the unsubscribe call ends it"),
+    r"^<jsonrpsee_core::server::subscription::SubscriptionGuard as std::ops::Drop>::drop$": ({"remove"}, "the last sink clone going away ends it"),
+}
+
+
+def r7_table_writers(ctx):
+    """who may change the subscriber table: a subscription becomes active in accept() and stops being active only by an
+    unsubscribe call or when the last sink clone is dropped (its connection closing drops the receiver side). Any other
+    function removing/inserting entries ends or fakes a subscription the handler still holds a sink for."""
+    F, R = ctx.F, ctx.R
+    n = 0
+    seen = set()
+    for c in F.all_calls(r"HashMap::<.*>::(remove|remove_entry|insert|clear|retain|drain|extract_if|entry|get_mut|iter_mut|values_mut)$"):
+        if not (c.ga and "subscription::SubscriptionKey" in c.ga[0]):
+            continue
+        op = c.name().split("::")[-1]
+        n += 1
+        allowed = None
+        for pat, (ops, why) in TABLE_WRITERS.items():
+            if re.search(pat, c.body.path):
+                allowed = (ops, why)
+                seen.add(pat)
+        R.check(allowed is not None and op in allowed[0], "C06.R7", "%s:%s" % (fkey(c.body), op), "%s on the subscriber table in %s (%s)" % (op, short(c.body.path), allowed[1] if allowed else ""),
+                "%s performs `%s` on the subscriber table: entries may only be inserted by accept() and removed by the unsubscribe call or by the last sink clone's drop; here a subscription stops (or starts) being active while its handler may still hold a sink, so sends fail and unsubscribe answers false for a live subscription" % (short(c.body.path), op), where(c))
+    R.floor("C06.R7", n, 3, "mutations of the subscriber table")
+    R.check(len(seen) == len(TABLE_WRITERS), "C06.R7", "all-writers-present", "insert-on-accept, remove-on-unsubscribe and remove-on-last-drop all exist", "one of the three table writers is missing (found %d of %d)" % (len(seen), len(TABLE_WRITERS)), None)
+
+
+def r8_no_relock(ctx):
+    """the subscriber table's lock is never re-acquired while held (accept / unsubscribe / last-drop would block forever
+    and the subscription would neither become active nor return its slot)"""
+    from .common import double_lock_scan
+    F, R = ctx.F, ctx.R
+    n = double_lock_scan(F, R, "C06.R8", r"^<?jsonrpsee_core::server::|^<?jsonrpsee_server::")
+    R.ok("C06.R8", "no-relock", "%d lock acquisitions inspected; none re-acquires a held lock" % n)
+    R.floor("C06.R8", n, 3, "lock acquisitions in the server crates")
+
+
+def rcfg_config_verbatim(ctx):
+    """the configured `max_subscriptions_per_connection` reaches the ServerConfig unchanged (setter stores its argument, build()/Clone copy it)"""
+    from .common import config_field_integrity
+    config_field_integrity(ctx, "C06.CFG", "max_subscriptions_per_connection")
+
+
+RULES = [r1_permit_before_handler, r2_permit_flow, r3_unsubscribe_answer, r4_release_on_last_drop, r5_unsubscribe_needs_no_permit, r6_cap_provenance, r7_table_writers, r8_no_relock, rcfg_config_verbatim]
 
 LEVEL_TEXT = (
     "Structural necessary conditions of subscription bookkeeping decided from the type-checked program: acquire dominates "
